@@ -141,6 +141,15 @@ func sizeSource(kind string, n int) (src []byte, name string) {
 		return []byte("def " + id + " {\n " + id + " = 1\n print " + id + "\n}\nprint 1/0\n"), name
 	case "name":
 		return []byte("print 1\nprint nil + 1\n"), a
+	case "noname":
+		// an unnamed program (the loader is given another name: the dumped, empty one must win)
+		return []byte("# " + a + "\nprint 1\nprint nil + 1\n"), ""
+	case "lastlf":
+		// the very last byte of the dump is the varint of the last newline offset n-1
+		if n < 2 {
+			n = 2
+		}
+		return []byte("#" + strings.Repeat(".", n-2) + "\n"), name
 	case "offset":
 		// a failing operation n bytes into the source: its position needs a 1..3 byte varint
 		return []byte(strings.Repeat(" ", n) + "print 1\n\nprint 2 + nil\n"), name
@@ -245,7 +254,8 @@ func replayFormat(args []string) int {
 				s.Classes["rejected"]++
 				return
 			}
-			got := loadAndRun(dump, c.Pat, name)
+			// the loader is told a different name: the name stored in the file is the program's name
+			got := loadAndRun(dump, c.Pat, name+".loaded")
 			if got != want {
 				shape := "roundtrip"
 				switch {
@@ -256,7 +266,7 @@ func replayFormat(args []string) int {
 				case got.Redump != want.Redump:
 					shape = "redump"
 				}
-				if len(c.Pat) > 0 && loadAndRun(dump, nil, name) == want {
+				if len(c.Pat) > 0 && loadAndRun(dump, nil, name+".loaded") == want {
 					shape += ":delivery"
 				}
 				s.bad("the loaded program differs from the parsed one", shape, raw, map[string]any{"parsed": trimObs(want), "loaded": trimObs(got)}, true)
